@@ -108,7 +108,8 @@ class Scope:
         if used_all:
             self.inlined_helpers = used_all
             self.members = [(c, b, role) for c, b, role in self.members
-                            if not (role in ("helper", "helper-closure") and c.name == "deserr" and (b.path in used_all or b.root in used_all))]
+                            if not (role in ("helper", "helper-closure") and c.name == "deserr" and (b.path in used_all or b.root in used_all))
+                            and not (role == "closure" and b.path in used_all)]   # a closure expanded where a helper calls it
 
     def view(self, crate, body):
         k = (crate.name, crate.file, body.path)
